@@ -44,7 +44,10 @@ where
     fn deserialize_pk(bytes: &[u8]) -> Result<Self::Pk, InternalError> {
         PublicKey::<Self>::from_sec1_bytes(bytes)
             .map(|public_key| public_key.to_projective())
-            .map_err(|_| InternalError::PointError)
+            .ok()
+            // Only accept the encoding produced by `serialize_pk`
+            .filter(|pk| Self::serialize_pk(*pk).as_slice() == bytes)
+            .ok_or(InternalError::PointError)
     }
 
     fn random_sk<R: RngCore + CryptoRng>(rng: &mut R) -> Self::Sk {
